@@ -356,6 +356,8 @@ class Aff:
             return self.dims(t.args[1][0])
         if n in (".copy", ".astype", ".tolist") and recv is not None:
             return self.dims(recv)
+        if n in ("builtins.float", "numpy.float64") and len(t.args[1]) == 1:
+            return self.dims(t.args[1][0])
         if n in ("numpy.zeros", "numpy.ones", "numpy.empty") and t.args[1]:
             return self._shape_arg(t.args[1][0])
         if n in ("numpy.zeros_like", "numpy.empty_like") and t.args[1]:
@@ -743,6 +745,8 @@ class Aff:
             return self.entry(t.args[1][0], idx)
         if n in (".copy", ".astype", ".tolist") and recv is not None:
             return self.entry(recv, idx)
+        if n in ("builtins.float", "numpy.float64") and len(t.args[1]) == 1:
+            return self.entry(t.args[1][0], idx)
         if n in ("numpy.zeros", "numpy.zeros_like"):
             return {}
         if n == "numpy.ones":
